@@ -116,7 +116,7 @@ func C17(run *ev.Run, tier string) map[string]interface{} {
 	{
 		// (one table slot: the two-client catalogue is C18's; here the two SDK clients are compared)
 		slots := []string{"tb1"}
-		mk("lifecycle", newImpl, nil, c18Alphabet(slots, 1, false), c18Observe(slots), cap)
+		mk("lifecycle", newImpl, nil, c18Alphabet(slots, 1, false, false), c18Observe(slots), cap)
 	}
 	// attribute values: every value tree of C10's alphabet written and read back through both clients
 	{
